@@ -64,6 +64,7 @@ CoverFails(s, sn) ==
 StepFails(p, s, ps) ==
          Fail("C05_Admission", C05_AdmissionStep(p.api, s.api, MaxCOf(s)))
     \cup Fail("C06_Fifo", ps.t0 >= 0 => C06_FifoStep(p.api, s.api, ps))
+    \cup Fail("C06_ForbidNotStartedAtLimit", C06_ForbidNotStartedAtLimitStep(p.api, s.api, MaxCOf(s)))
     \cup Fail("C07_NotEarlyStep", C07_NotEarlyStep(p.api, s.api, s.now))
     \cup Fail("C11_StartTimeStable", C11_StartTimeStable(p.api, s.api))
     \cup Fail("C07_RefusedOnlyWhenDue", C07_RefusedOnlyWhenDueStep(p.api, s.api, s.now))
